@@ -12,6 +12,10 @@ Eq(w) = /[ab]/ where `lambda v: v == w`
 Rpt(x, k) = x{k}
 Val(v) = "a" >> `v`
 Nest(x) = ["(", Nest(x)?, ")"] | x
+Many(x) = x*
+Either(x, y) = x | y
+AtLeast(x) = x{2,}
+Look(x) = [Expect(x), /[ab1]*/]
 class P(x) { l: "("; v: x; r: ")" }
 D = /\\d/
 N = /\\d/ |> `int`
@@ -55,6 +59,14 @@ SITES = [
     ('let k = N in Pair("a"{k})', 'let k = N in ["a"{k}, "a"{k}]'),
     ('let q = D in Pair(["a", `q`])', 'let q = D in [["a", `q`], ["a", `q`]]'),
     ('let n = /[ab]/ in Pair(/[ab]/ where `lambda v: v == n`)', 'let n = /[ab]/ in [/[ab]/ where `lambda v: v == n`, /[ab]/ where `lambda v: v == n`]'),
+    # the parameter directly under a repetition / choice / lookahead, with an argument that can fail after consuming
+    ('Many("a" >> "b") << "ac"', '("a" >> "b")* << "ac"'),
+    ('Many(["a", "b"]) << /[ab]*/', '(["a", "b"])* << /[ab]*/'),
+    ('Either("a" >> "b", /[ab]+/)', '("a" >> "b") | /[ab]+/'),
+    ('Either(y="a", x=["a", "b"]) << "!"', '(["a", "b"] | "a") << "!"'),
+    ('[AtLeast("a" >> "b") | "", /[ab]*/]', '[("a" >> "b"){2,} | "", /[ab]*/]'),
+    ('Look("a" >> "b")', '[Expect("a" >> "b"), /[ab1]*/]'),
+    ('Many(Pair("a")) << /a*/', '(["a", "a"])* << /a*/'),
     ('Wrap(x=/[ab]/, y=/[!?]/)', '/[!?]/ >> /[ab]/ << /[!?]/'),
     ('let n = /[ab]/ in Wrap(y="!", x=Eq(n))', 'let n = /[ab]/ in "!" >> (/[ab]/ where `lambda v: v == n`) << "!"'),
 ]
@@ -62,7 +74,7 @@ SITES = [
 BAD_SITES = ['Pair()', 'Pair("a", "b")', 'Pair(z="a")']
 TEXTS = [''.join(p) for L in range(0, 4) for p in itertools.product('ab1', repeat=L)] + \
     ['aa', 'a-a', 'aa-aa', 'b.-b.', 'bb.-b.', 'bcbc-bc', 'babab-ab', '!1!', '1!', '2aa', '211', '1a', '(a)', '((a))', '(a)(b)',
-     '(1)(2)', '()', '(())', 'ab', 'abab', '1a1a', 'ax', 'xxa', 'aq-aq', 'bb', 'bc', 'a.', 'bb-b', 'a1', '!a!', '?b!', 'a-a1',
+     '(1)(2)', '()', '(())', 'abac', 'ababac', 'ac', 'az', 'ac!', 'ab!', 'a!', 'abab', 'aba', 'ababa', 'abb', 'aaa', 'aaaa', 'aab', 'ab', 'abab', '1a1a', 'ax', 'xxa', 'aq-aq', 'bb', 'bc', 'a.', 'bb-b', 'a1', '!a!', '?b!', 'a-a1',
      'aabbaa', '11aa11', '1111', 'aaaa', 'ab-ab', 'a1-a1', '!b!', 'b!b']
 
 
